@@ -1,0 +1,301 @@
+//go:build verif
+
+// Contracts for package exec, checked by /verif/engine (govc). This file is
+// only compiled with the build tag "verif": it contains ghost declarations
+// used by the //@ contract comments and the contracts themselves, keyed by
+// function name and loop ordinal. No executable code of the package refers
+// to anything declared here.
+package exec
+
+import (
+	"context"
+	"encoding/json"
+	"errors"
+
+	"github.com/theory/sqljson/path/ast"
+	"github.com/theory/sqljson/path/types"
+)
+
+var (
+	_ context.Context
+	_ json.Number
+	_ ast.Node
+	_ types.DateTime
+)
+
+// ---------------------------------------------------------------------------
+// ghost vocabulary (interpreted by govc; bodies are never executed)
+
+func old[T any](x T) T       { return x }
+func implies(a, b bool) bool { return !a || b }
+func iff(a, b bool) bool     { return a == b }
+func ite[T any](c bool, a, b T) T {
+	if c {
+		return a
+	}
+	return b
+}
+func is[T any](v any) bool                       { _, ok := v.(T); return ok }
+func as[T any](v any) T                          { return v.(T) }
+func errIs(err, target error) bool               { return errors.Is(err, target) }
+func fresh(p any) bool                           { return true }
+func ncalls(f any) int                           { return 0 }
+func callarg[T any](f any, name string) T        { var z T; return z }
+func callret[T any](f any, i int) T              { var z T; return z }
+func forall(f any) bool                          { return true }
+func exists(f any) bool                          { return true }
+func pendingErr() error                          { return nil }
+func pendingFailed() bool                        { return false }
+func ctxDone() bool                              { return false }
+func fitsInt64(x int64) bool                     { return true }
+func fitsInt32(x int64) bool                     { return true }
+func deferActive(field string) bool              { return false }
+func deferVal[T any](field string) T             { var z T; return z }
+func isNaN(f float64) bool                       { return f != f }
+func isInf(f float64) bool                       { return false }
+func toFloat(i int64) float64                    { return float64(i) }
+func truncF(f float64) float64                   { return f }
+func roundHalfAway(f float64) float64            { return f }
+func f2iInRange64(f float64) bool                { return true }
+func f2iTrunc(f float64) int64                   { return int64(f) }
+func loopEntry[T any](x T) T                     { return x }
+func exactCmpIF(i int64, f float64) int          { return 0 }
+func errIsCtx(err error) bool                    { return false }
+func sameSlice[T any](a, b []T) bool             { return len(a) == len(b) }
+func uninterp[T any](name string, args ...any) T { var z T; return z }
+
+//@ sweep safety C05
+
+// ---------------------------------------------------------------------------
+// C11 / C12 leaf functions
+
+//@ func predFrom
+//@ props C11 C12
+//@ ensures value: r0 == ite(ok, predTrue, predFalse)
+
+//@ func compareBool
+//@ props C12
+//@ ensures notbool: !is[bool](right) ==> !r1
+//@ ensures bool: is[bool](right) ==> r1 && (r0 == 0) == (left == as[bool](right)) && (r0 < 0) == (!left && as[bool](right)) && (r0 > 0) == (left && !as[bool](right))
+
+//@ func applyCompare
+//@ props C12
+//@ ensures eq: op == ast.BinaryEqual ==> r1 == nil && r0 == ite(cmp == 0, predTrue, predFalse)
+//@ ensures ne: op == ast.BinaryNotEqual ==> r1 == nil && r0 == ite(cmp != 0, predTrue, predFalse)
+//@ ensures lt: op == ast.BinaryLess ==> r1 == nil && r0 == ite(cmp < 0, predTrue, predFalse)
+//@ ensures gt: op == ast.BinaryGreater ==> r1 == nil && r0 == ite(cmp > 0, predTrue, predFalse)
+//@ ensures le: op == ast.BinaryLessOrEqual ==> r1 == nil && r0 == ite(cmp <= 0, predTrue, predFalse)
+//@ ensures ge: op == ast.BinaryGreaterOrEqual ==> r1 == nil && r0 == ite(cmp >= 0, predTrue, predFalse)
+//@ ensures other: !(op == ast.BinaryEqual || op == ast.BinaryNotEqual || op == ast.BinaryLess || op == ast.BinaryGreater || op == ast.BinaryLessOrEqual || op == ast.BinaryGreaterOrEqual) ==> r1 != nil && errIs(r1, ErrInvalid) && r0 == predUnknown
+
+// ---------------------------------------------------------------------------
+// C13 arithmetic core
+
+//@ func executeIntegerMath
+//@ props C13
+//@ ensures add: op == ast.BinaryAdd && fitsInt64(lhs + rhs) ==> r1 == nil && r0 == lhs + rhs
+//@ ensures sub: op == ast.BinarySub && fitsInt64(lhs - rhs) ==> r1 == nil && r0 == lhs - rhs
+//@ ensures mul: op == ast.BinaryMul && fitsInt64(lhs * rhs) ==> r1 == nil && r0 == lhs * rhs
+//@ ensures div: op == ast.BinaryDiv && rhs != 0 && fitsInt64(lhs / rhs) ==> r1 == nil && r0 == lhs / rhs
+//@ ensures mod: op == ast.BinaryMod && rhs != 0 ==> r1 == nil && r0 == lhs % rhs
+//@ ensures zero: (op == ast.BinaryDiv || op == ast.BinaryMod) && rhs == 0 ==> r1 != nil && errIs(r1, ErrVerbose)
+//@ ensures nowrap-add: op == ast.BinaryAdd && !fitsInt64(lhs + rhs) ==> r1 != nil
+//@ ensures nowrap-sub: op == ast.BinarySub && !fitsInt64(lhs - rhs) ==> r1 != nil
+//@ ensures nowrap-mul: op == ast.BinaryMul && !fitsInt64(lhs * rhs) ==> r1 != nil
+//@ ensures nowrap-div: op == ast.BinaryDiv && rhs != 0 && !fitsInt64(lhs / rhs) ==> r1 != nil
+
+// ---------------------------------------------------------------------------
+// exec.go: entry points, executor construction, error helpers
+
+//@ func newExec
+//@ props C05 C07 C19
+//@ ensures fresh: r0 != nil && fresh(r0)
+//@ ensures init: r0.path == path && r0.innermostArraySize == -1 && r0.lastGeneratedObjectID == 1
+//@ ensures [C07] mode: r0.ignoreStructuralErrors == path.IsLax()
+
+//@ func (*Executor).returnVerboseError
+//@ props C08
+//@ requires verbose-class: err != nil && errIs(err, ErrVerbose) && errIs(err, ErrExecution)
+//@ ensures r0 == statusFailed
+//@ ensures [C08] silent: !exec.verbose ==> r1 == nil
+//@ ensures [C08] verbose: exec.verbose ==> r1 == err
+
+//@ func (*Executor).returnError
+//@ props C08 C20
+//@ requires class: err != nil && (errIs(err, ErrExecution) || errIs(err, ErrInvalid))
+//@ ensures r0 == statusFailed
+//@ ensures [C08] suppress: !exec.verbose && errIs(err, ErrVerbose) ==> r1 == nil
+//@ ensures [C08 C20] keep: exec.verbose || !errIs(err, ErrVerbose) ==> r1 == err
+
+//@ func (*Executor).execute
+//@ props C01 C06 C09
+//@ modifies exec.root, exec.current, exec.lastGeneratedObjectID
+//@ ensures list: r0 != nil && fresh(r0)
+//@ ensures [C01 C09] bind: exec.root == value && exec.current == value
+//@ ensures class: r1 != nil ==> errIs(r1, ErrExecution) || errIs(r1, ErrInvalid)
+//@ ensures [C08] silent: !old(exec.verbose) ==> !errIs(r1, ErrVerbose)
+//@ ensures [C01 C06] delegates: ncalls(exec.query) == 1 && callarg[any](exec.query, "value") == value && callarg[*valueList](exec.query, "vals") == r0 && r1 == callret[error](exec.query, 1)
+
+//@ func (*Executor).exists
+//@ props C06 C09
+//@ modifies exec.root, exec.current, exec.lastGeneratedObjectID
+//@ ensures [C09] bind: exec.root == json && exec.current == json
+//@ ensures [C06] delegates: ncalls(exec.query) == 1 && callarg[any](exec.query, "value") == json && callarg[*valueList](exec.query, "vals") == nil && r0 == callret[resultStatus](exec.query, 0) && r1 == callret[error](exec.query, 1)
+
+//@ func Query
+//@ props C01 C05 C06 C08
+//@ requires path != nil
+//@ ensures [C06] one-run: ncalls(exec.execute) == 1 && callarg[any](exec.execute, "value") == value
+//@ ensures [C05 C06] err: callret[error](exec.execute, 1) != nil ==> r1 == callret[error](exec.execute, 1) && r0 == nil
+//@ ensures [C06] ok: callret[error](exec.execute, 1) == nil ==> r1 == nil && sameSlice(r0, callret[*valueList](exec.execute, 0).list)
+//@ ensures [C05] class: r1 != nil ==> errIs(r1, ErrExecution) || errIs(r1, ErrInvalid)
+
+//@ func First
+//@ props C05 C06
+//@ requires path != nil
+//@ ensures [C06] one-run: ncalls(exec.execute) == 1 && callarg[any](exec.execute, "value") == value
+//@ ensures [C06] err: callret[error](exec.execute, 1) != nil ==> r1 == callret[error](exec.execute, 1) && r0 == nil
+//@ ensures [C06] empty: callret[error](exec.execute, 1) == nil && len(callret[*valueList](exec.execute, 0).list) == 0 ==> r1 == nil && r0 == nil
+//@ ensures [C06] first: callret[error](exec.execute, 1) == nil && len(callret[*valueList](exec.execute, 0).list) > 0 ==> r1 == nil && r0 == callret[*valueList](exec.execute, 0).list[0]
+
+//@ func Exists
+//@ props C05 C06
+//@ requires path != nil
+//@ ensures [C06] one-run: ncalls(exec.exists) == 1 && callarg[any](exec.exists, "json") == value
+//@ ensures [C05 C06] err: callret[error](exec.exists, 1) != nil ==> r1 == callret[error](exec.exists, 1) && !r0
+//@ ensures [C06] null: callret[error](exec.exists, 1) == nil && callret[resultStatus](exec.exists, 0) == statusFailed ==> r1 == NULL && !r0
+//@ ensures [C06] answer: callret[error](exec.exists, 1) == nil && callret[resultStatus](exec.exists, 0) != statusFailed ==> r1 == nil && r0 == (callret[resultStatus](exec.exists, 0) == statusOK)
+
+//@ func Match
+//@ props C05 C06 C08 C11
+//@ requires path != nil
+//@ ensures [C06] one-run: ncalls(exec.execute) == 1 && callarg[any](exec.execute, "value") == value
+//@ ensures [C05 C06] err: callret[error](exec.execute, 1) != nil ==> r1 == callret[error](exec.execute, 1) && !r0
+//@ ensures [C06 C11] bool: callret[error](exec.execute, 1) == nil && len(callret[*valueList](exec.execute, 0).list) == 1 && is[bool](callret[*valueList](exec.execute, 0).list[0]) ==> r1 == nil && r0 == as[bool](callret[*valueList](exec.execute, 0).list[0])
+//@ ensures [C06 C11] null: callret[error](exec.execute, 1) == nil && len(callret[*valueList](exec.execute, 0).list) == 1 && callret[*valueList](exec.execute, 0).list[0] == nil ==> r1 == NULL && !r0
+//@ ensures [C06 C08] other: callret[error](exec.execute, 1) == nil && !(len(callret[*valueList](exec.execute, 0).list) == 1 && (is[bool](callret[*valueList](exec.execute, 0).list[0]) || callret[*valueList](exec.execute, 0).list[0] == nil)) ==> !r0 && r1 != nil && (r1 == NULL || errIs(r1, ErrVerbose))
+//@ ensures [C08] silent-null: callret[error](exec.execute, 1) == nil && !errIs(r1, ErrVerbose) && r1 != nil ==> r1 == NULL
+
+// ---------------------------------------------------------------------------
+// execution.go: the evaluation spine
+
+//@ func (*Executor).query
+//@ props C06
+//@ requires node != nil
+//@ ensures [C06] strict-collects: exec.path.IsStrict() && vals == nil ==> ncalls(exec.executeItem) == 1 && callarg[*valueList](exec.executeItem, "found") != nil && fresh(callarg[*valueList](exec.executeItem, "found"))
+//@ ensures [C06] strict-failed: exec.path.IsStrict() && vals == nil && callret[resultStatus](exec.executeItem, 0) == statusFailed ==> r0 == statusFailed && r1 == callret[error](exec.executeItem, 1)
+//@ ensures [C06] strict-answer: exec.path.IsStrict() && vals == nil && callret[resultStatus](exec.executeItem, 0) != statusFailed ==> r1 == nil && r0 == ite(len(callarg[*valueList](exec.executeItem, "found").list) == 0, statusNotFound, statusOK)
+//@ ensures [C06] direct: !(exec.path.IsStrict() && vals == nil) ==> ncalls(exec.executeItem) == 1 && callarg[*valueList](exec.executeItem, "found") == vals && r0 == callret[resultStatus](exec.executeItem, 0) && r1 == callret[error](exec.executeItem, 1)
+//@ ensures [C06 C01] same-args: callarg[ast.Node](exec.executeItem, "node") == node && callarg[any](exec.executeItem, "value") == value
+
+//@ func (*Executor).executeItem
+//@ props C01 C09
+//@ requires node != nil
+//@ ensures [C01 C09] delegates: ncalls(exec.executeItemOptUnwrapTarget) == 1 && callarg[ast.Node](exec.executeItemOptUnwrapTarget, "node") == node && callarg[any](exec.executeItemOptUnwrapTarget, "value") == value && callarg[*valueList](exec.executeItemOptUnwrapTarget, "found") == found && callarg[bool](exec.executeItemOptUnwrapTarget, "unwrap") == exec.path.IsLax()
+//@ ensures [C01] result: r0 == callret[resultStatus](exec.executeItemOptUnwrapTarget, 0) && r1 == callret[error](exec.executeItemOptUnwrapTarget, 1)
+
+//@ func (*Executor).executeNextItem
+//@ props C01 C09
+//@ requires link: cur == nil || next == nil || next == cur.Next()
+//@ ensures [C01 C09] continue: ite(cur == nil, next, cur.Next()) != nil ==> ncalls(exec.executeItem) == 1 && callarg[ast.Node](exec.executeItem, "node") == ite(cur == nil, next, cur.Next()) && callarg[any](exec.executeItem, "value") == value && callarg[*valueList](exec.executeItem, "found") == found && r0 == callret[resultStatus](exec.executeItem, 0) && r1 == callret[error](exec.executeItem, 1)
+//@ ensures [C01 C09] append: ite(cur == nil, next, cur.Next()) == nil ==> ncalls(exec.executeItem) == 0 && r0 == statusOK && r1 == nil
+//@ ensures [C01 C09] appended: ite(cur == nil, next, cur.Next()) == nil && found != nil ==> len(found.list) == old(len(found.list)) + 1 && found.list[old(len(found.list))] == value
+//@ ensures [C01] prefix: ite(cur == nil, next, cur.Next()) == nil && found != nil ==> forall(func(i int) bool { return implies(0 <= i && i < old(len(found.list)), found.list[i] == old(found.list[i])) })
+
+// ---------------------------------------------------------------------------
+// array.go, util.go: subscripts
+
+//@ func getJSONInt32
+//@ props C14
+//@ mode bv
+//@ ensures [C14] int: is[int64](val) ==> ite(-2147483648 <= as[int64](val) && as[int64](val) <= 2147483647, r1 == nil && int64(r0) == as[int64](val), r1 != nil && errIs(r1, ErrVerbose))
+//@ ensures [C14] local-nan-inf: is[float64](val) && (isNaN(as[float64](val)) || isInf(as[float64](val))) ==> r1 != nil && errIs(r1, ErrVerbose)
+//@ ensures [C14] local-float-trunc: is[float64](val) && !isNaN(as[float64](val)) && !isInf(as[float64](val)) && truncF(as[float64](val)) >= -2147483648.0 && truncF(as[float64](val)) <= 2147483647.0 ==> r1 == nil && int64(r0) == f2iTrunc(as[float64](val))
+//@ ensures [C14] local-float-range: is[float64](val) && !isNaN(as[float64](val)) && !(truncF(as[float64](val)) >= -2147483648.0 && truncF(as[float64](val)) <= 2147483647.0) ==> r1 != nil && errIs(r1, ErrVerbose)
+//@ ensures [C14] other: !(is[int64](val) || is[float64](val) || is[json.Number](val)) ==> r1 != nil && errIs(r1, ErrVerbose)
+//@ ensures [C14] ok-range: r1 == nil ==> -2147483648 <= r0 && r0 <= 2147483647
+//@ ensures [C05] class: r1 != nil ==> errIs(r1, ErrExecution) || errIs(r1, ErrInvalid)
+//@ ensures [C05] never-invalid: !errIs(r1, ErrInvalid)
+
+//@ func (*Executor).getArrayIndex
+//@ props C14
+//@ requires node != nil
+//@ modifies exec.lastGeneratedObjectID
+//@ ensures [C05 C14] class: r1 != nil ==> errIs(r1, ErrExecution) || errIs(r1, ErrInvalid)
+//@ ensures [C08] silent: !old(exec.verbose) ==> !errIs(r1, ErrVerbose)
+//@ ensures [C14] ok-range: r1 == nil ==> -2147483648 <= r0 && r0 <= 2147483647
+//@ ensures [C14 C09] operand: ncalls(exec.executeItem) == 1 && callarg[ast.Node](exec.executeItem, "node") == node && callarg[any](exec.executeItem, "value") == value
+//@ ensures [C14 C08] failure-reported: callret[resultStatus](exec.executeItem, 0) == statusFailed ==> r1 != nil
+//@ ensures [C20 C08] hard-error-kept: callret[error](exec.executeItem, 1) != nil ==> r1 == callret[error](exec.executeItem, 1)
+
+//@ func (*Executor).execSubscript
+//@ props C07 C14
+//@ requires arraySize >= 0
+//@ modifies exec.lastGeneratedObjectID
+//@ ensures [C05] class: r2 != nil ==> errIs(r2, ErrExecution) || errIs(r2, ErrInvalid)
+//@ ensures [C08] silent-ok: true
+//@ ensures [C14 C07] bounds: r2 == nil ==> 0 <= r0 && r1 < arraySize
+//@ ensures [C07] strict-inrange: r2 == nil && !exec.ignoreStructuralErrors ==> r0 <= r1
+//@ ensures [C14] from-to: r2 == nil && is[*ast.BinaryNode](node) && as[*ast.BinaryNode](node).Right() == nil ==> ncalls(exec.getArrayIndex) == 1 && ite(callret[int](exec.getArrayIndex, 0) < 0, r0 == 0, r0 == callret[int](exec.getArrayIndex, 0)) && ite(callret[int](exec.getArrayIndex, 0) >= arraySize, r1 == arraySize-1, r1 == callret[int](exec.getArrayIndex, 0))
+//@ ensures [C07 C14] strict-error: ncalls(exec.getArrayIndex) >= 1 && callret[error](exec.getArrayIndex, 1) == nil && !exec.ignoreStructuralErrors && (callret[int](exec.getArrayIndex, 0) < 0 || callret[int](exec.getArrayIndex, 0) >= arraySize) ==> r2 != nil && errIs(r2, ErrVerbose)
+//@ ensures [C20 C08] error-kept: pendingErr() == nil
+
+//@ func (*Executor).execArrayIndex
+//@ props C07 C14
+//@ loop 1 invariant [C09 C14] last-bound: exec.innermostArraySize == size
+//@ loop 1 invariant [C07 C20] no-pending: pendingErr() == nil && !pendingFailed() && resErr == nil && res != statusFailed
+//@ loop 1 invariant status: res == statusOK || res == statusNotFound
+//@ loop 2 invariant [C09 C14] last-bound: exec.innermostArraySize == size
+//@ loop 2 invariant [C14] in-bounds: 0 <= indexFrom && indexFrom <= index && indexTo < size && size == len(array)
+//@ loop 2 invariant [C07 C20] no-pending: pendingErr() == nil && !pendingFailed() && resErr == nil && res != statusFailed
+//@ loop 2 invariant status: res == statusOK || res == statusNotFound
+//@ loop 2 invariant [C14] every-element: ncalls(exec.executeNextItem) == loopEntry(ncalls(exec.executeNextItem)) + (index - indexFrom)
+//@ loop 2 decreases indexTo - index + 1
+//@ atcall executeNextItem assert [C14] element: arg_value == array[index] && arg_found == found
+//@ ensures [C07] strict-nonarray: !is[[]any](value) && !exec.path.IsLax() ==> r0 == statusFailed && (r1 == nil || errIs(r1, ErrVerbose)) && ncalls(exec.executeNextItem) == 0
+
+// ---------------------------------------------------------------------------
+// execution.go (continued): dispatch, cancellation poll, lax result unwrapping
+
+//@ func (*Executor).executeItemOptUnwrapTarget
+//@ props C01 C20
+//@ requires node != nil
+//@ ensures [C20] E5-poll: old(ctxDone()) ==> r0 == statusFailed && r1 != nil && errIs(r1, ErrExecution) && errIsCtx(r1) && !errIs(r1, ErrVerbose)
+//@ ensures [C20] E5-no-step: old(ctxDone()) ==> ncalls(exec.execConstNode) == 0 && ncalls(exec.execLiteral) == 0 && ncalls(exec.execVariable) == 0 && ncalls(exec.execKeyNode) == 0 && ncalls(exec.execBinaryNode) == 0 && ncalls(exec.execUnaryNode) == 0 && ncalls(exec.execRegexNode) == 0 && ncalls(exec.execMethodNode) == 0 && ncalls(exec.execAnyNode) == 0 && ncalls(exec.execArrayIndex) == 0
+//@ ensures [C01] const: !old(ctxDone()) && is[*ast.ConstNode](node) ==> ncalls(exec.execConstNode) == 1 && callarg[any](exec.execConstNode, "value") == value && callarg[*valueList](exec.execConstNode, "found") == found && callarg[bool](exec.execConstNode, "unwrap") == unwrap && r0 == callret[resultStatus](exec.execConstNode, 0) && r1 == callret[error](exec.execConstNode, 1)
+//@ ensures [C01] string: !old(ctxDone()) && is[*ast.StringNode](node) ==> ncalls(exec.execLiteral) == 1 && callarg[any](exec.execLiteral, "value") == any(as[*ast.StringNode](node).Text()) && callarg[*valueList](exec.execLiteral, "found") == found && r0 == callret[resultStatus](exec.execLiteral, 0) && r1 == callret[error](exec.execLiteral, 1)
+//@ ensures [C01] integer: !old(ctxDone()) && is[*ast.IntegerNode](node) ==> ncalls(exec.execLiteral) == 1 && callarg[any](exec.execLiteral, "value") == any(as[*ast.IntegerNode](node).Int()) && callarg[*valueList](exec.execLiteral, "found") == found && r0 == callret[resultStatus](exec.execLiteral, 0) && r1 == callret[error](exec.execLiteral, 1)
+//@ ensures [C01] numeric: !old(ctxDone()) && is[*ast.NumericNode](node) ==> ncalls(exec.execLiteral) == 1 && callarg[any](exec.execLiteral, "value") == any(as[*ast.NumericNode](node).Float()) && callarg[*valueList](exec.execLiteral, "found") == found && r0 == callret[resultStatus](exec.execLiteral, 0) && r1 == callret[error](exec.execLiteral, 1)
+//@ ensures [C01] variable: !old(ctxDone()) && is[*ast.VariableNode](node) ==> ncalls(exec.execVariable) == 1 && callarg[*valueList](exec.execVariable, "found") == found && r0 == callret[resultStatus](exec.execVariable, 0) && r1 == callret[error](exec.execVariable, 1)
+//@ ensures [C01] key: !old(ctxDone()) && is[*ast.KeyNode](node) ==> ncalls(exec.execKeyNode) == 1 && callarg[any](exec.execKeyNode, "value") == value && callarg[*valueList](exec.execKeyNode, "found") == found && callarg[bool](exec.execKeyNode, "unwrap") == unwrap && r0 == callret[resultStatus](exec.execKeyNode, 0) && r1 == callret[error](exec.execKeyNode, 1)
+//@ ensures [C01] binary: !old(ctxDone()) && is[*ast.BinaryNode](node) ==> ncalls(exec.execBinaryNode) == 1 && callarg[any](exec.execBinaryNode, "value") == value && callarg[*valueList](exec.execBinaryNode, "found") == found && callarg[bool](exec.execBinaryNode, "unwrap") == unwrap && r0 == callret[resultStatus](exec.execBinaryNode, 0) && r1 == callret[error](exec.execBinaryNode, 1)
+//@ ensures [C01] unary: !old(ctxDone()) && is[*ast.UnaryNode](node) ==> ncalls(exec.execUnaryNode) == 1 && callarg[any](exec.execUnaryNode, "value") == value && callarg[*valueList](exec.execUnaryNode, "found") == found && callarg[bool](exec.execUnaryNode, "unwrap") == unwrap && r0 == callret[resultStatus](exec.execUnaryNode, 0) && r1 == callret[error](exec.execUnaryNode, 1)
+//@ ensures [C01] regex: !old(ctxDone()) && is[*ast.RegexNode](node) ==> ncalls(exec.execRegexNode) == 1 && callarg[any](exec.execRegexNode, "value") == value && callarg[*valueList](exec.execRegexNode, "found") == found && r0 == callret[resultStatus](exec.execRegexNode, 0) && r1 == callret[error](exec.execRegexNode, 1)
+//@ ensures [C01] method: !old(ctxDone()) && is[*ast.MethodNode](node) ==> ncalls(exec.execMethodNode) == 1 && callarg[any](exec.execMethodNode, "value") == value && callarg[*valueList](exec.execMethodNode, "found") == found && callarg[bool](exec.execMethodNode, "unwrap") == unwrap && r0 == callret[resultStatus](exec.execMethodNode, 0) && r1 == callret[error](exec.execMethodNode, 1)
+//@ ensures [C01] any: !old(ctxDone()) && is[*ast.AnyNode](node) ==> ncalls(exec.execAnyNode) == 1 && callarg[any](exec.execAnyNode, "value") == value && callarg[*valueList](exec.execAnyNode, "found") == found && r0 == callret[resultStatus](exec.execAnyNode, 0) && r1 == callret[error](exec.execAnyNode, 1)
+//@ ensures [C01] index: !old(ctxDone()) && is[*ast.ArrayIndexNode](node) ==> ncalls(exec.execArrayIndex) == 1 && callarg[any](exec.execArrayIndex, "value") == value && callarg[*valueList](exec.execArrayIndex, "found") == found && r0 == callret[resultStatus](exec.execArrayIndex, 0) && r1 == callret[error](exec.execArrayIndex, 1)
+//@ ensures [C01] single-step: ncalls(exec.execConstNode) + ncalls(exec.execLiteral) + ncalls(exec.execVariable) + ncalls(exec.execKeyNode) + ncalls(exec.execBinaryNode) + ncalls(exec.execUnaryNode) + ncalls(exec.execRegexNode) + ncalls(exec.execMethodNode) + ncalls(exec.execAnyNode) + ncalls(exec.execArrayIndex) <= 1
+
+//@ func (*Executor).executeItemOptUnwrapResultSilent
+//@ props C08 C10
+//@ requires node != nil
+//@ ensures [C08] silenced: callarg[bool](exec.executeItemOptUnwrapResult, "unwrap") == unwrap && ncalls(exec.executeItemOptUnwrapResult) == 1 && r0 == callret[resultStatus](exec.executeItemOptUnwrapResult, 0) && r1 == callret[error](exec.executeItemOptUnwrapResult, 1)
+//@ ensures [C08] never-verbose: !errIs(r1, ErrVerbose)
+//@ ensures [C08 C09] restored: exec.verbose == old(exec.verbose)
+//@ atcall executeItemOptUnwrapResult assert [C08] runs-silent: !exec.verbose && arg_node == node && arg_value == value && arg_found == found
+
+//@ func (*Executor).executeItemOptUnwrapResult
+//@ props C01 C13
+//@ requires node != nil
+//@ requires found != nil
+//@ loop 1 invariant [C20 C05] no-pending: pendingErr() == nil && !pendingFailed()
+//@ ensures [C01] direct: !(unwrap && exec.path.IsLax()) ==> ncalls(exec.executeItem) == 1 && callarg[*valueList](exec.executeItem, "found") == found && callarg[any](exec.executeItem, "value") == value && r0 == callret[resultStatus](exec.executeItem, 0) && r1 == callret[error](exec.executeItem, 1)
+//@ ensures [C01] collected: unwrap && exec.path.IsLax() ==> callarg[any](exec.executeItem, "value") == value && callarg[ast.Node](exec.executeItem, "node") == node && fresh(callarg[*valueList](exec.executeItem, "found"))
+//@ ensures [C01] collected-failed: unwrap && exec.path.IsLax() && callret[resultStatus](exec.executeItem, 0) == statusFailed ==> r0 == statusFailed && r1 == callret[error](exec.executeItem, 1)
+//@ ensures [C01] collected-ok: unwrap && exec.path.IsLax() && callret[resultStatus](exec.executeItem, 0) != statusFailed ==> r0 == statusOK && r1 == nil
+
+//@ func (*Executor).executeItemUnwrapTargetArray
+//@ props C01 C07
+//@ ensures [C05] array-only: is[[]any](value) ==> ncalls(exec.executeAnyItem) == 1 && r0 == callret[resultStatus](exec.executeAnyItem, 0) && r1 == callret[error](exec.executeAnyItem, 1)
+//@ ensures [C01 C07] one-level: is[[]any](value) ==> callarg[uint32](exec.executeAnyItem, "level") == 1 && callarg[uint32](exec.executeAnyItem, "first") == 1 && callarg[uint32](exec.executeAnyItem, "last") == 1 && !callarg[bool](exec.executeAnyItem, "unwrapNext") && !callarg[bool](exec.executeAnyItem, "ignoreStructuralErrors") && callarg[*valueList](exec.executeAnyItem, "found") == found && callarg[ast.Node](exec.executeAnyItem, "node") == node
+//@ ensures [C01] collect-cannot-fail: node == nil && found != nil && is[[]any](value) ==> r0 != statusFailed && r1 == nil
